@@ -5,6 +5,7 @@ use std::net::SocketAddrV4;
 use std::net::SocketAddrV6;
 
 use anyhow::Result;
+use anyhow::bail;
 use tokio_util::bytes::Buf;
 use tokio_util::bytes::BufMut;
 use tokio_util::bytes::BytesMut;
@@ -34,7 +35,20 @@ pub fn encode(addr: &Address, dst: &mut BytesMut) {
 }
 
 pub fn decode(src: &mut BytesMut) -> Result<Address> {
-    let addr_type = Socks5AddressType::try_from(src.get_u8())?;
+    if !src.has_remaining() {
+        bail!("truncated address");
+    }
+    let addr_type = Socks5AddressType::try_from(src[0])?;
+    let need = match addr_type {
+        Socks5AddressType::Ipv4 => 1 + 4 + 2,
+        Socks5AddressType::Domain if src.remaining() < 2 => bail!("truncated address"),
+        Socks5AddressType::Domain => 1 + 1 + src[1] as usize + 2,
+        Socks5AddressType::Ipv6 => 1 + 8 * 2 + 2,
+    };
+    if src.remaining() < need {
+        bail!("truncated address: expecting {} bytes, but found {} bytes", need, src.remaining());
+    }
+    src.advance(1);
     match addr_type {
         Socks5AddressType::Ipv4 => {
             let ip_v4 = Ipv4Addr::from(src.get_u32());
@@ -65,8 +79,12 @@ pub fn length(addr: &Address) -> usize {
 }
 
 pub fn try_decode_at(src: &BytesMut, at: usize) -> Result<usize> {
+    if src.len() <= at {
+        bail!("truncated address");
+    }
     match Socks5AddressType::try_from(src[at])? {
         Socks5AddressType::Ipv4 => Ok(1 + 4 + 2),
+        Socks5AddressType::Domain if src.len() <= at + 1 => bail!("truncated address"),
         Socks5AddressType::Domain => Ok(1 + 1 + src[at + 1] as usize + 2),
         Socks5AddressType::Ipv6 => Ok(1 + 8 * 2 + 2),
     }
